@@ -42,14 +42,21 @@ struct Rig {
         peers.push_back(std::move(p));
         return peers.back()->up ? static_cast<int>(peers.size()) - 1 : -1;
     }
+    // Closes the peer's connection and establishes a new session. A node that has not yet noticed the end of the old
+    // connection may acknowledge the new handshake and then drop the new connection in favour of the one it still believes
+    // in; an honest peer retries, so does this one (the session is probed with a barrier before it is trusted).
     bool reconnect(int i) {
         RigPeer* rp = peers[static_cast<std::size_t>(i)].get();
-        rp->actor.call([&, rp] {
-            rp->conn.close_now();
-            rp->conn = PeerConn{};
-            rp->up = scripted_handshake(rp->conn, rp->ident, kRigNode, node_public, handshake_difficulty, ip_text(node.actor.host), node.port);
-        });
-        return rp->up;
+        for (int attempt = 0; attempt < 4; ++attempt) {
+            rp->actor.call([&, rp, attempt] {
+                rp->conn.close_now();
+                rp->conn = PeerConn{};
+                sk::sleep_ns((20 + 200 * attempt) * kMs);
+                rp->up = scripted_handshake(rp->conn, rp->ident, kRigNode, node_public, handshake_difficulty, ip_text(node.actor.host), node.port);
+            });
+            if (rp->up && barrier(i, 5000)) return true;
+        }
+        return false;
     }
     bool send(int i, const pr::Message& m) {
         RigPeer* rp = peers[static_cast<std::size_t>(i)].get();
